@@ -69,7 +69,7 @@ theorem sim7c_step (s : St) (e : Ev) (s' : St) (m : M7c) (hR : Sim7c s m) (hs : 
     | none => Sim7c s' m
     | some ob => ∃ m', monC07c.step m ob = some m' ∧ Sim7c s' m' := by
   have hst : step s e = some s' := hs
-  have h3 := inv3_step s s' e hR.i3 hst
+  have h3 := inv3_step s s' e hR.i3 hR.o.1.c hst
   have hG := g6_step s s' e hR.o.1 hst
   have ha := sim_step s e s' m.a hR.a hs
   have ho := phase_step s s' e m.o hR.o.1 hR.o.2 hst
